@@ -374,6 +374,22 @@ def fibRun (MAX : Nat) : Pool → List FibOp → Pool × List (Option Err)
     let rest := fibRun MAX r.1 os
     (rest.1, r.2 :: rest.2)
 
+/-- One `yr_re_exec` seen from the pool: it needs `need` fibers alive at once; every exit path (match, no match,
+    ERROR_TOO_MANY_RE_FIBERS) hands the live fibers back (`_yr_re_fiber_kill_all`). -/
+def releaseAll (p : Pool) : Pool := ⟨p.allocated, p.free + p.live, 0⟩
+
+def reExec (MAX : Nat) : Nat → Pool → Pool × Option Err
+  | 0, p => (releaseAll p, none)
+  | need + 1, p =>
+    match fibStep G MAX p .create with
+    | (p', none) => reExec MAX need p'
+    | (p', some e) => (releaseAll p', some e)
+
+/-- a scanner used for several scans: the pool persists, each scan is one `reExec` -/
+def reExecSeq (MAX : Nat) : Pool → List Nat → List (Option Err)
+  | _, [] => []
+  | p, n :: ns => let r := reExec G MAX n p; r.2 :: reExecSeq MAX r.1 ns
+
 /-! ## 9. Timeout cadence (exec.c:2358, scanner.c:76) -/
 
 /-- The instruction loop with `timeout > 0`: `if (++cycle == N) { read clock; …; cycle = 0; }`.
@@ -392,5 +408,78 @@ def vmReads (N : Nat) : Nat → Nat → Nat
 def blockReads (S : Nat) : Nat → Nat → Nat
   | _, 0 => 0
   | a, k + 1 => (if a % S = 0 then 1 else 0) + blockReads S (a + 1) k
+
+end YaraModel.Limits
+
+namespace YaraModel.Gen.Limits
+
+/-! ## 10. Timeout conversion (scanner.c `yr_scanner_set_timeout`) — C integer semantics -/
+
+def CTy.bits : CTy → Nat | .i32 => 32 | .u32 => 32 | .i64 => 64 | .u64 => 64
+def CTy.signed : CTy → Bool | .i32 => true | .i64 => true | _ => false
+
+/-- value of an arbitrary integer converted to the type (two's complement wrap; signed overflow, which is
+    undefined in C, is modelled as the wrap every supported compiler produces) -/
+def CTy.wrap (ty : CTy) (x : Int) : Int :=
+  let m : Int := 2 ^ ty.bits
+  let r := x % m
+  if ty.signed && r ≥ m / 2 then r - m else r
+
+/-- usual arithmetic conversions (LP64): u64 > i64 > u32 > i32 -/
+def CTy.common : CTy → CTy → CTy
+  | .u64, _ => .u64 | _, .u64 => .u64
+  | .i64, _ => .i64 | _, .i64 => .i64
+  | .u32, _ => .u32 | _, .u32 => .u32
+  | .i32, .i32 => .i32
+
+/-- evaluates the expression for the argument `t` (an `int`); `none` = construct not translated -/
+def CExpr.eval (t : Int) : CExpr → Option (CTy × Int)
+  | .var => some (.i32, CTy.wrap .i32 t)
+  | .lit v ty => some (ty, ty.wrap v)
+  | .mul a b => arith (· * ·) (a.eval t) (b.eval t)
+  | .add a b => arith (· + ·) (a.eval t) (b.eval t)
+  | .sub a b => arith (· - ·) (a.eval t) (b.eval t)
+  | .gt a b => rel (fun x y => decide (x > y)) (a.eval t) (b.eval t)
+  | .ge a b => rel (fun x y => decide (x ≥ y)) (a.eval t) (b.eval t)
+  | .lt a b => rel (fun x y => decide (x < y)) (a.eval t) (b.eval t)
+  | .le a b => rel (fun x y => decide (x ≤ y)) (a.eval t) (b.eval t)
+  | .eq a b => rel (fun x y => decide (x = y)) (a.eval t) (b.eval t)
+  | .ne a b => rel (fun x y => decide (x ≠ y)) (a.eval t) (b.eval t)
+  | .cond c a b =>
+    match c.eval t, a.eval t, b.eval t with
+    | some (_, cv), some (ta, va), some (tb, vb) =>
+      let ty := ta.common tb
+      some (ty, ty.wrap (if cv ≠ 0 then va else vb))
+    | _, _, _ => none
+  | .cast ty a => (a.eval t).map fun r => (ty, ty.wrap r.2)
+  | .unparsed => none
+where
+  arith (f : Int → Int → Int) : Option (CTy × Int) → Option (CTy × Int) → Option (CTy × Int)
+    | some (ta, va), some (tb, vb) => let ty := ta.common tb; some (ty, ty.wrap (f (ty.wrap va) (ty.wrap vb)))
+    | _, _ => none
+  rel (f : Int → Int → Bool) : Option (CTy × Int) → Option (CTy × Int) → Option (CTy × Int)
+    | some (ta, va), some (tb, vb) => let ty := ta.common tb; some (.i32, if f (ty.wrap va) (ty.wrap vb) then 1 else 0)
+    | _, _ => none
+
+/-! ## 11. Iterator `next` functions (exec.c:186-400): one guard for several direct stack writes -/
+
+/-- may the function proceed? (`stack->sp + K >= capacity` ⇒ ERROR_EXEC_STACK_OVERFLOW) -/
+def IterFn.proceeds (e : IterFn) (sp cap : Nat) : Bool := !(e.guardCmp.eval (sp + e.guardK) cap)
+
+/-- all slots written by the function when it proceeds: `sp, …, sp + maxPushes - 1` -/
+def IterFn.inBounds (e : IterFn) (sp cap : Nat) : Prop := sp + e.maxPushes ≤ cap
+
+instance (e : IterFn) (sp cap : Nat) : Decidable (e.inBounds sp cap) := by unfold IterFn.inBounds; infer_instance
+
+end YaraModel.Gen.Limits
+
+namespace YaraModel.Limits
+open YaraModel.Gen.Limits
+
+/-- the value stored in the `uint64_t timeout` field by `yr_scanner_set_timeout(scanner, t)` -/
+def timeoutField (e : CExpr) (t : Int) : Option Int := (e.eval t).map fun r => CTy.wrap .u64 r.2
+
+/-- specification: seconds to nanoseconds -/
+def specTimeoutNs (t : Int) : Int := t * 1000000000
 
 end YaraModel.Limits
